@@ -532,6 +532,13 @@ static std::string describe_threads(const std::vector<TaskSample>& ts) {
 }
 void watchdog_pause(bool p) { g_wd_paused.store(p); }
 void watchdog_stop() { g_wd_stop.store(true); { std::lock_guard<std::mutex> l(g_gate_m); g_perturb.suspended.store(false); } g_gate_cv.notify_all(); if (g_wd_thread) { g_wd_thread->join(); delete g_wd_thread; g_wd_thread = nullptr; } }
+static double mem_available_fraction() {
+    FILE* f = fopen("/proc/meminfo", "r"); if (!f) return 1.0;
+    char line[256]; double total = 0, avail = -1;
+    while (fgets(line, sizeof line, f)) { unsigned long long v; if (sscanf(line, "MemTotal: %llu", &v) == 1) total = (double)v; else if (sscanf(line, "MemAvailable: %llu", &v) == 1) avail = (double)v; }
+    fclose(f);
+    return total > 0 && avail >= 0 ? avail / total : 1.0;
+}
 void watchdog_start(const WatchdogCfg& cfg, HangFn on_hang_user) {
     g_wd_stop.store(false);
     // debugging aid: VRT_HOLD_ON_HANG=1 keeps a process that reached a hang verdict alive (for gdb -p) instead of reporting and exiting
@@ -552,16 +559,17 @@ void watchdog_start(const WatchdogCfg& cfg, HangFn on_hang_user) {
         uint64_t last = g_progress.load(); double last_t = now_s();
         std::map<int, TaskSample> base;     // samples at the time progress was last seen
         bool have_base = false;
-        std::map<int, TaskSample> prev; double quiet_since = -1;
+        std::map<int, TaskSample> prev; double quiet_since = -1; bool mem_low_seen = false;
         while (!g_wd_stop.load()) {
             sleep_us(100000);
             uint64_t p = g_progress.load(); double t = now_s();
             if (p != last || g_wd_paused.load()) {
-                last = p; last_t = t; have_base = false; quiet_since = -1; prev.clear();
+                last = p; last_t = t; have_base = false; quiet_since = -1; prev.clear(); mem_low_seen = false;
                 if (g_perturb.suspended.load()) { { std::lock_guard<std::mutex> l(g_gate_m); g_perturb.suspended.store(false); } g_gate_cv.notify_all(); }
                 continue;
             }
             if (t - last_t < cfg.no_progress_s) continue;
+            if (mem_available_fraction() < 0.06) mem_low_seen = true;
             // suspicion: stop perturbing and look at the threads
             g_perturb.suspended.store(true);
             auto ts = sample_tasks();
@@ -592,6 +600,10 @@ void watchdog_start(const WatchdogCfg& cfg, HangFn on_hang_user) {
             }
             if (any_running && all_burnt && t - last_t >= cfg.spin_cpu_s) {
                 if (g_progress.load() != last) continue;
+                // CPU burnt while the machine was out of memory (kernel reclaim, OOM killer at work) proves nothing about this process:
+                // no verdict, the driver re-runs the job once (seen once: a "spin-stall" beside six 8 GB sanitizer processes, one of which the
+                // OOM killer ended; the same process replayed twice completed)
+                if (mem_low_seen) { hi.threads = describe_threads(ts) + " [memory exhausted during the stall: inconclusive]"; on_hang(hi); return; }
                 hi.spin_stall = true; hi.threads = describe_threads(ts); on_hang(hi); return;
             }
             if (t - last_t > cfg.hard_limit_s) { hi.threads = describe_threads(ts); on_hang(hi); return; }
